@@ -63,6 +63,7 @@ inline int RunOne(const char* id, const Opts& opts, Monitor& mon, const std::str
     oc += "}";
     E.set("outcomes" + tag, oc);
     E.set("depth" + tag, (uint64_t)depth);
+    E.set("transitions_executed_incl_reexpansions" + tag, sim.executed_transitions);
     E.set_str("event_classes" + tag, Join(opts.classes));
     E.set_str("limits" + tag, "max_size_bytes=" + std::to_string(opts.max_size_bytes) + " cluster_count=" + std::to_string(opts.cluster_count) + " cluster_size_vbytes=" + std::to_string(opts.cluster_size_vbytes) + " prefill=" + std::to_string(opts.prefill) + " require_standard=" + std::to_string(opts.require_standard));
     int g = mon.gate(sim);
@@ -92,7 +93,7 @@ inline int Main(int argc, char** argv, const char* id, const std::function<Confi
         int g = RunOne(id, o, mon, tag, false);
         if (g) gate = g;
     }
-    E.rule = "explicit-state search of the real regtest node with its mempool (fork per transition). state = canonical (tip, sorted (wtxid, fee, delta, entry time), pool order, prioritisation map, memory usage, rolling-minimum-fee fields, unbroadcast set, coin cache size, #invalidations, #time jumps); transition = one real ProcessTransaction / ProcessNewPackage / ProcessNewBlock / InvalidateBlock / PrioritiseTransaction call or a mock-time jump; every event is a pure function of the state (tx menu relative to the state); " + mon.what();
+    E.rule = "explicit-state search of the real regtest node with its mempool (fork per transition). state = canonical (tip, sorted (wtxid, fee, delta, entry time), pool order, prioritisation map, memory usage, rolling-minimum-fee fields, unbroadcast set, coin cache size, #invalidations, #time jumps); transition = one distinct (state, event) pair, i.e. one real ProcessTransaction / ProcessNewPackage / ProcessNewBlock / InvalidateBlock / PrioritiseTransaction call or a mock-time jump; every event is a pure function of the state (tx menu relative to the state); " + mon.what();
     E.assume("regtest, in-memory LevelDBs, 0 script-check and prevout-fetch workers, synchronous validation signals (single-threaded, so fork() is a sound snapshot); anyone-can-spend P2WSH(OP_TRUE) coins only");
     E.sample("event grammar: N:<ver>:<fee> NY NL NQ C:<i>:<out>:<ver>:<fee> J R:<i>:<thr> RB RS SB PK:<ver>:<pf>:<cf> PE PR D M:<k> MC:<i> I X T P:<i>:<+|->  (see kits/poolsim.h)");
     E.sample("example history: N:2:m | C:0:0:2:h | R:0:d | M:a | I");
